@@ -25,6 +25,10 @@ TRUSTED = [
     "little-endian host (le16toh/htole16 are the identity)",
     "out-of-bounds accesses of the real library are observed with an AddressSanitizer build (clang-14) of /repo's "
     "working tree run on the same cases",
+    "regions of 35-150 MB (around BUFFER_MALLOC_MAX/3, /2 and the exact limits) are run on the library only (round trip "
+    "through the very object returned); the model is not evaluated at these sizes, the theorems carry no hypothesis on "
+    "region sizes",
+    "no theorem for UTF-16 -> UTF-16 recoding (model + correspondence only)",
 ]
 ASSUMPTIONS = [
     "malloc does not fail; object sizes are below 2^60 bytes",
